@@ -102,6 +102,7 @@ theorem knownInv_evalOp (c : Cfg) (op : Op) (s s' : St) (h : KnownInv s) (e : ev
   · simp only [Option.some.injEq] at e
     subst e
     cases op with
+    | fail sl => exact h
     | insertData q => exact knownInv_insertSolution _ _ _ _ h
     | deleteData q => exact knownInv_deleteSolution _ _ _ _ h
     | deleteWhere bs => exact knownInv_foldl _ (fun s a hs => knownInv_deleteSolution _ _ s a hs) _ h
@@ -176,6 +177,7 @@ theorem nodup_evalOp (c : Cfg) (op : Op) (s s' : St) (h : s.quads.Nodup) (e : ev
   · simp only [Option.some.injEq] at e
     subst e
     cases op with
+    | fail sl => exact h
     | insertData q => exact nodup_insertSolution _ _ _ _ h
     | deleteData q => exact nodup_deleteSolution _ _ _ _ h
     | deleteWhere bs => exact nodup_foldl _ (fun s a hs => nodup_deleteSolution _ _ s a hs) _ h
@@ -237,10 +239,12 @@ theorem allNone_evalOp (c : Cfg) (op : Op) (s s' : St) (hc : c.single = true) (h
   split at e
   · cases e
   · next hnd =>
-    simp only [hc, Bool.true_and, Bool.not_eq_true] at hnd
+    simp only [hc, Bool.true_and, Bool.not_eq_true, Bool.or_eq_false_iff] at hnd
+    obtain ⟨hnd, _⟩ := hnd
     simp only [Option.some.injEq] at e
     subst e
     cases op with
+    | fail sl => exact h
     | insertData q =>
       simp only [Op.needsDataset] at hnd
       intro x hx
